@@ -211,6 +211,22 @@ func c02Cells(tier string) []Cell {
 		}
 	}
 
+	// The caller builds its keys in one buffer and reuses it for the next Get (as bench/failover.go does) while a
+	// background update of the previous key may still be running: every result still belongs to the key asked for.
+	for front := 0; front < 3; front++ {
+		for _, su := range []bool{false, true} {
+			for _, sr := range []bool{false, true} {
+				for _, init := range []string{"SA", "SS", "ST", "TS"} {
+					for _, sc := range []string{"o", "f", "of"} {
+						c := FCfg{Front: front, SU: su, SR: sr, MS: true, Init: init, FailC: "00", Script: sc,
+							Threads: [][]GOp{{{Key: 0, Reuse: true}, {Key: 1, Reuse: true}}, {{Key: 1}}}}
+						cells = append(cells, Cell{ID: c.ID()})
+					}
+				}
+			}
+		}
+	}
+
 	return cells
 }
 
@@ -231,7 +247,7 @@ func init() {
 	Register(&Prop{
 		ID: "C02", Title: "Failover results always have provenance; nothing is fabricated or mixed up",
 		Cells: c02Cells, Run: c02Run,
-		Rule: "cell = front-end x 32 configurations x entry state x builder script x client program (two Gets on one key; one of them under SkipRead; two keys) x fault injection on/off; " +
+		Rule: "cell = front-end x 32 configurations x entry state x builder script x client program (two Gets on one key; one of them under SkipRead; two keys) x fault injection on/off; plus two constructed hash-colliding keys, and a caller reusing one key buffer for successive Gets; " +
 			"per cell all schedules within the preemption bound, and with faults on every backend Read/Write call position failing (at most 1 quick / 2 thorough per execution); " +
 			"values and errors are tokens (key, origin, n), every returned pair is traced back to a finished builder invocation, the preloaded content or an injected fault",
 		Assumptions: []string{
